@@ -103,6 +103,66 @@ func truncLists(v interface{}) interface{} {
 	return v
 }
 
+// padLists puts a dummy element in front of every list of generic data; unpadLists takes it out again with Remove
+// (outermost list first), so that every real element - sub-configs and nested lists too - has MOVED to its position.
+func padLists(v interface{}) interface{} {
+	switch x := v.(type) {
+	case map[string]interface{}:
+		m := map[string]interface{}{}
+		for k, e := range x {
+			m[k] = padLists(e)
+		}
+		return m
+	case []interface{}:
+		l := []interface{}{"pad"}
+		for _, e := range x {
+			l = append(l, padLists(e))
+		}
+		return l
+	}
+	return v
+}
+
+func unpadLists(cfg *ucfg.Config, v interface{}, opts []ucfg.Option) error {
+	isCont := func(e interface{}) bool {
+		switch e.(type) {
+		case map[string]interface{}, []interface{}:
+			return true
+		}
+		return false
+	}
+	switch x := v.(type) {
+	case map[string]interface{}:
+		for _, k := range sortedKeys(x) {
+			if isCont(x[k]) {
+				sub, err := cfg.Child(k, -1, opts...)
+				if err != nil {
+					return err
+				}
+				if err := unpadLists(sub, x[k], opts); err != nil {
+					return err
+				}
+			}
+		}
+	case []interface{}:
+		if ok, err := cfg.Remove("", 0, opts...); err != nil || !ok {
+			return fmt.Errorf("removing the pad element: %v %v", ok, err)
+		}
+		for i, e := range x {
+			if isCont(e) {
+				sub, err := cfg.Child("", i, opts...)
+				if err != nil {
+					return err
+				}
+				if err := unpadLists(sub, e, opts); err != nil {
+					return err
+				}
+			}
+		}
+	}
+	return nil
+}
+
 type faultSeg struct {
 	N *string `json:"n"`
 	I *int    `json:"i"`
@@ -200,13 +260,15 @@ func faultsReplay(args []string) int {
 		// every route also on a configuration that reached its state through TWO merges: first the tree with every
 		// list cut down to its first element, then the whole tree (the surplus elements are appended, so their
 		// position is recorded by another code path than NewFrom's)
+		// ... and on a configuration whose lists all had a leading element REMOVED (every element was renumbered)
 		for _, r := range append([]string{}, routes...) {
-			routes = append(routes, r+"/merged")
+			routes = append(routes, r+"/merged", r+"/removed")
 		}
 		for _, route := range routes {
 			var o faultObs
 			merged := strings.HasSuffix(route, "/merged")
-			route = strings.TrimSuffix(route, "/merged")
+			removed := strings.HasSuffix(route, "/removed")
+			route = strings.TrimSuffix(strings.TrimSuffix(route, "/merged"), "/removed")
 			panicked, msg := guard(func() {
 				var cfg *ucfg.Config
 				var err error
@@ -214,6 +276,10 @@ func faultsReplay(args []string) int {
 					cfg = ucfg.New()
 					if err = cfg.Merge(truncLists(faultTreeGo(c.Tree)), opts...); err == nil {
 						err = cfg.Merge(faultTreeGo(c.Tree), opts...)
+					}
+				} else if removed {
+					if cfg, err = ucfg.NewFrom(padLists(faultTreeGo(c.Tree)), opts...); err == nil {
+						err = unpadLists(cfg, faultTreeGo(c.Tree), opts)
 					}
 				} else {
 					cfg, err = ucfg.NewFrom(faultTreeGo(c.Tree), opts...)
@@ -251,6 +317,9 @@ func faultsReplay(args []string) int {
 			o.Route = route
 			if merged {
 				o.Route += "/merged"
+			}
+			if removed {
+				o.Route += "/removed"
 			}
 			eq := func(exp json.RawMessage) bool {
 				return o.Kind == "err" && o.Typed == "" && o.Path == want && o.Source == faultSource
